@@ -486,4 +486,9 @@ def rule_variable_leaves(ctx):
     collect.check_variable_leaves(ctx, "COLLECT", ctx.facts)
 
 
-RULES = [rule_variable_leaves, rule_rw1, rule_rw3, rule_rw4, rule_rw5, rule_comparisons, rule_strategy, rule_apply, rule_equality_predicate, rule_subsort_table, rule_use_sites, rule_fresh_names]
+def rule_variable_conversions(ctx):
+    """the substituting rewrites rename bound variables through Variable -> term conversions: each sort converts to a variable of that sort"""
+    collect.check_variable_conversions(ctx, "COLLECT", ctx.facts, which=("from",))
+
+
+RULES = [rule_variable_leaves, rule_rw1, rule_rw3, rule_rw4, rule_rw5, rule_comparisons, rule_strategy, rule_apply, rule_equality_predicate, rule_subsort_table, rule_use_sites, rule_fresh_names, rule_variable_conversions]
